@@ -298,7 +298,7 @@ _Q22A, _Q22S = _fl(_sh(((2, 2),)), "async"), _fl(_sh(((2, 2),)), "sync")
         # properties' clauses are checked on shapes up to (2,2)/(1,3)
         "C01": {"quick": _Q_SMALL, "thorough": _sh(((2, 1), (1, 2), (2, 2), (1, 3)))},
         "C10": {"quick": _Q_SMALL, "thorough": _sh(((2, 1), (1, 2), (2, 2), (1, 3)))},
-        "C07": {"quick": _Q_SMALL + _Q22A, "thorough": _sh(((2, 1), (1, 2), (2, 2), (1, 3))) + _deep(((3, 1),))[::5]},
+        "C07": {"quick": _Q_SMALL + _Q22A + _fl(_sh(((1, 3),)), "sync"), "thorough": _sh(((2, 1), (1, 2), (2, 2), (1, 3))) + _deep(((3, 1),))[::5]},
         "C09": {"quick": _Q_SMALL + _Q22S, "thorough": _sh(((2, 1), (1, 2), (2, 2), (1, 3))) + _deep(((3, 1),))[::5]},
         # C08(c): atomic-step invariants of the step as the sync pool runs it (under its lock)
         "C08": {"quick": _fl(_sh(((1, 2), (2, 2))), "sync"),
